@@ -830,6 +830,9 @@ func (v *Validator) hasResultType(t cedarType, attr types.String) cedarType {
 	if tv, ok := t.(typeRecord); ok {
 		a, ok := tv.attrs[attr]
 		if !ok {
+			if tv.open {
+				return typeBool{}
+			}
 			return typeFalse{}
 		}
 		if a.required {
